@@ -230,6 +230,11 @@ class TE:
             args = []
             for a, pty in zip(e.args, ptys):
                 args.append(self.as_int(a) if pty == 'int' else self.rat(self.expr(a)))
+            if rty == 'int?':       # a translated function that may raise: hoisted like a list access (`none` propagates)
+                self.ntmp[0] += 1
+                tmp = f'v{self.ntmp[0]}_'
+                self.binds.append((tmp, ' '.join([name] + args)))
+                return tmp, 'int'
             return '(' + ' '.join([name] + args) + ')', rty
         if f in HELPERS and f not in self.env:
             return self.inline(HELPERS[f], e)
@@ -691,6 +696,18 @@ def compile_fn(fn, lean_name, funcs, fuel=None):
                 continue
             if isinstance(st, ast.AugAssign):
                 st = ast.Assign(targets=[st.target], value=ast.BinOp(left=st.target, op=st.op, right=st.value))
+            if isinstance(st, ast.Assign) and len(st.targets) == 1 and isinstance(st.targets[0], ast.Tuple) \
+                    and isinstance(st.value, ast.Tuple) and len(st.value.elts) == len(st.targets[0].elts) \
+                    and all(isinstance(t, ast.Name) for t in st.targets[0].elts):
+                # a, b = e1, e2 : all right-hand sides are evaluated first; refused when one of them reads a name assigned here
+                tnames = [t.id for t in st.targets[0].elts]
+                if any(isinstance(x, ast.Name) and x.id in tnames for v in st.value.elts for x in ast.walk(v)) or len(set(tnames)) != len(tnames):
+                    raise Untranslatable(f'tuple assignment that reads its own targets: {ast.unparse(st)[:60]}')
+                vals_ = [te.expr(v) for v in st.value.elts]
+                for tn, (term, ty) in zip(tnames, vals_):
+                    lines.append(f'  let {tn}_ := {term}')
+                    te.env = {**te.env, tn: (f'{tn}_', ty)}
+                continue
             if isinstance(st, ast.Assign):
                 if len(st.targets) != 1 or not isinstance(st.targets[0], ast.Name):
                     raise Untranslatable(f'assignment {ast.unparse(st)[:60]}')
@@ -722,6 +739,175 @@ def compile_scalar_fn(fn, lean_name, funcs, ty):
         raise Untranslatable(f'{fn.name} returns {rty}')
     T = {'int': 'Int', 'rat': 'Rat'}[ty]
     return f'def {lean_name} ({p}_ : {T}) : {T} :=\n  {term}\n'
+
+
+# ------------------------------------------------------------------------------------------------
+# nm_to_name: strings -> structure codes (kind, ordinal, column, suffix), then compiled like an index map
+# ------------------------------------------------------------------------------------------------
+_COL = 1000000          # tag of a column-name code (`_names_m.get(k, f'{k}-foil')` |-> k + _COL; 'Tilt' |-> _COL - 1)
+_SUF = 2000000          # tag of a suffix code
+_SUFFIX_CODE = {'X': 0, 'Y': 1, '00°': 2, '45°': 3}
+_CONST_NAMES = {'Piston': (0, 0, 0, 4), 'Defocus': (2, 0, 0, 4), 'Tilt X': (1, 0, 1, 0), 'Tilt Y': (1, 0, 1, 1)}
+
+
+def _int_tuple(vals):
+    return ast.Tuple(elts=[v if isinstance(v, ast.AST) else ast.Constant(value=v) for v in vals], ctx=ast.Load())
+
+
+def _table_get(e, table, tail):
+    """`table.get(X, f'{X}<tail>')` -> X (else None)"""
+    if isinstance(e, ast.Call) and isinstance(e.func, ast.Attribute) and e.func.attr == 'get' and not e.keywords \
+            and isinstance(e.func.value, ast.Name) and e.func.value.id == table and len(e.args) == 2:
+        x, d = e.args
+        if isinstance(d, ast.JoinedStr) and len(d.values) == 2 and isinstance(d.values[0], ast.FormattedValue) \
+                and d.values[0].conversion == -1 and d.values[0].format_spec is None \
+                and isinstance(d.values[1], ast.Constant) and d.values[1].value == tail \
+                and ast.dump(d.values[0].value) == ast.dump(x):
+            return x
+    return None
+
+
+def _fstring_parts(e):
+    """f'{a} {b} {c}' -> ['a-node', ' ', ...] as a list of nodes / literal strings"""
+    out = []
+    for v in e.values:
+        if isinstance(v, ast.Constant) and isinstance(v.value, str):
+            out.append(v.value)
+        elif isinstance(v, ast.FormattedValue) and v.conversion == -1 and v.format_spec is None:
+            out.append(v.value)
+        else:
+            raise Untranslatable('format specification in a name')
+    return out
+
+
+def names_as_codes(fn, helpers, depth=0):
+    """copy of `fn` in which every string is replaced by its structure code; `return helper(args)` of a same-module
+    string helper is inlined (parameters renamed to the argument names)"""
+    def sub(a, b):
+        return ast.BinOp(left=a, op=ast.Sub(), right=ast.Constant(value=b))
+
+    def add(a, b):
+        return ast.BinOp(left=a, op=ast.Add(), right=ast.Constant(value=b))
+
+    def value(e):
+        if isinstance(e, ast.IfExp):
+            return ast.IfExp(test=e.test, body=value(e.body), orelse=value(e.orelse))
+        if isinstance(e, ast.Constant) and isinstance(e.value, str):
+            if e.value in _SUFFIX_CODE:
+                return ast.Constant(value=_SUF + _SUFFIX_CODE[e.value])
+            if e.value == 'Tilt':
+                return ast.Constant(value=_COL - 1)
+            raise Untranslatable(f'string {e.value!r} is not a known part of a name')
+        x = _table_get(e, '_names', 'th')
+        if x is not None:
+            return x
+        x = _table_get(e, '_names_m', '-foil')
+        if x is not None:
+            return add(x, _COL)
+        if any(isinstance(n, (ast.JoinedStr, ast.Constant)) and isinstance(getattr(n, 'value', None), str) for n in ast.walk(e)) \
+                or any(isinstance(n, ast.JoinedStr) for n in ast.walk(e)):
+            raise Untranslatable(f'string expression {ast.unparse(e)[:50]}')
+        return e
+
+    def ret(e):
+        if isinstance(e, ast.IfExp):
+            return [ast.If(test=e.test, body=ret(e.body), orelse=ret(e.orelse))]
+        if isinstance(e, ast.Constant) and isinstance(e.value, str):
+            if e.value not in _CONST_NAMES:
+                raise Untranslatable(f'name {e.value!r} has no structure code')
+            return [ast.Return(value=_int_tuple(_CONST_NAMES[e.value]))]
+        if isinstance(e, ast.JoinedStr):
+            ps = _fstring_parts(e)
+            if len(ps) == 2 and ps[1] == ' Spherical' and not isinstance(ps[0], str):
+                return [ast.Return(value=_int_tuple([3, ps[0], 0, 4]))]
+            if len(ps) == 5 and ps[1] == ' ' and ps[3] == ' ' and not any(isinstance(ps[i], str) for i in (0, 2, 4)):
+                return [ast.Return(value=_int_tuple([4, ps[0], sub(ps[2], _COL), sub(ps[4], _SUF)]))]
+            raise Untranslatable(f'name pattern {ast.unparse(e)}')
+        if isinstance(e, ast.Call) and isinstance(e.func, ast.Name) and e.func.id in helpers and depth < 3 and not e.keywords:
+            h = helpers[e.func.id]
+            ps = [a.arg for a in h.args.args]
+            if len(ps) != len(e.args) or not all(isinstance(a, ast.Name) for a in e.args) or h.args.defaults or h.decorator_list:
+                raise Untranslatable(f'call {ast.unparse(e)}')
+            ren = {p: a.id for p, a in zip(ps, e.args)}
+            body = names_as_codes(h, helpers, depth + 1).body
+
+            class R(ast.NodeTransformer):
+                def visit_Name(self, n):
+                    return ast.copy_location(ast.Name(id=ren.get(n.id, n.id), ctx=n.ctx), n)
+            return [R().visit(st) for st in body]
+        raise Untranslatable(f'returned name {ast.unparse(e)[:50]}')
+
+    def stmts(body):
+        out = []
+        for st in body:
+            if isinstance(st, ast.Expr) and isinstance(st.value, ast.Constant):
+                continue
+            if isinstance(st, ast.Return):
+                out += ret(st.value)
+            elif isinstance(st, ast.Assign):
+                out.append(ast.Assign(targets=st.targets, value=value(st.value), lineno=0))
+            elif isinstance(st, ast.If):
+                out.append(ast.If(test=st.test, body=stmts(st.body), orelse=stmts(st.orelse)))
+            else:
+                raise Untranslatable(f'statement {ast.unparse(st)[:50]}')
+        return out
+    import copy
+    new = copy.deepcopy(fn)
+    new.body = stmts(new.body)
+    return ast.fix_missing_locations(new)
+
+
+# ------------------------------------------------------------------------------------------------
+# SCOPE GUARD for the name layer.  The names are consumers of the index conventions, not part of the property: a source
+# that spells / orders / numbers the names differently is NOT a violation.  Each name-layer item is therefore executed
+# (the rewritten integer function, in a scratch namespace) on a grid of valid orders and compared with the scheme of the
+# hand model; when it follows another scheme the item is `untranslatable` (reason recorded, generated text = hand model,
+# TIE-DEGRADED) and only what follows from the property — no two orders on one name / dict key, the +-m pairing — is
+# judged, by execution.
+# ------------------------------------------------------------------------------------------------
+def _model_name_key(n, m):
+    if n == 0:
+        return (0, 0, 0, 4)
+    if n == 1:
+        return (1, 0, 1, 0 if m >= 0 else 1)
+    if m == 0:
+        return (2, 0, 0, 4) if n == 2 else (3, n // 2 - 1, 0, 4)
+    acc = (n - 1) // 2 if m % 2 == 1 else (n - abs(m)) // 2 + 1
+    return (4, acc, abs(m), (0 if m % 2 == 1 else 2) + (0 if m >= 0 else 1))
+
+
+def _exec_defs(nodes, ns):
+    import copy
+    mod = ast.Module(body=[copy.deepcopy(n) for n in nodes], type_ignores=[])
+    ast.fix_missing_locations(mod)
+    exec(compile(mod, '<gen_c11 scope guard>', 'exec'), ns)
+    return ns
+
+
+def _scratch_ns(mo):
+    import numpy
+    ns = {'np': numpy, 'truenp': numpy, 'numpy': numpy}
+    try:
+        _exec_defs([get_def(mo, 'sign'), get_def(mo, 'is_odd')], ns)
+    except Exception as ex:     # noqa
+        raise Untranslatable(f'mathops.sign / is_odd cannot be executed: {ex}')
+    return ns
+
+
+def _grid():
+    return [(n, m) for n in range(0, 41) for m in range(-n, n + 1, 2)]
+
+
+def _same_scheme(what, f, want, pts):
+    for pt in pts:
+        try:
+            got = f(*pt)
+            got = tuple(int(x) for x in got) if isinstance(got, tuple) else int(got)
+        except Exception as ex:   # noqa
+            raise Untranslatable(f'{what}: cannot be evaluated at {pt} ({type(ex).__name__}: {ex}); consumer layer, judged by execution only')
+        if got != want(*pt):
+            raise Untranslatable(f'{what} follows another scheme than the hand model (at {pt}: {got}, model {want(*pt)}); '
+                                 'names are not part of the property: tie only, judged by execution (no two orders on one name)')
 
 
 def generate(repo):
@@ -768,6 +954,191 @@ def generate(repo):
     g.item('xy_j_to_mn', 'prysm/polynomials/xy.py:xy_j_to_mn', lambda: get_def(xy, 'xy_j_to_mn'),
            whole(xy, 'xy_j_to_mn', 'xyJToMn', fuel='j_.toNat'),
            f'def xyJToMn (j_ : Int) : Option (Int × Int) := if j_ < 1 then none else some ({M}.xyJToMn j_)')
+    # ---------------------------------------------------------------- session 3: names and pairing of the +-m terms
+    def build_accessor():
+        text = whole(zk, '_name_accessor', 'nameAccessor')()
+        ns = _exec_defs([get_def(zk, '_name_accessor')], _scratch_ns(mo))
+        _same_scheme('_name_accessor', ns['_name_accessor'], lambda n, m: _model_name_key(n, m)[1],
+                     [(n, m) for n, m in _grid() if m != 0 and n >= 2])
+        return text
+    g.item('name_accessor', 'prysm/polynomials/zernike.py:_name_accessor', lambda: get_def(zk, '_name_accessor'),
+           build_accessor,
+           f'def nameAccessor (n_ m_ : Int) : Option Int := some ({M}.nameAccessor n_ m_)')
+
+    def find_sph():
+        fn = get_def(zk, 'nm_to_name')
+        hits = [st for st in ast.walk(fn) if isinstance(st, ast.Assign) and len(st.targets) == 1
+                and isinstance(st.targets[0], ast.Name) and st.targets[0].id == 'accessor']
+        if len(hits) != 1:
+            raise Untranslatable('nm_to_name: the assignment of the spherical ordinal `accessor = …` was not found (once)')
+        return hits[0]
+
+    def build_sph():
+        fn = get_def(zk, 'nm_to_name')
+        bad = purity_problems(fn)
+        bad = [b for b in bad if '_names' not in b and '_name_helper' not in b]      # the two tables are items of their own
+        if bad:
+            raise Untranslatable('nm_to_name: ' + '; '.join(bad[:3]))
+        params = [a.arg for a in fn.args.args]
+        te = TE({q: (f'{q}_', 'int') for q in params}, funcs)
+        term, ty = te.expr(find_sph().value)
+        if ty != 'int' or te.binds:
+            raise Untranslatable('spherical ordinal is not an integer expression')
+        ns = _scratch_ns(mo)
+        code = compile(ast.Expression(body=find_sph().value), '<gen_c11 scope guard>', 'eval')
+        _same_scheme('spherical ordinal of nm_to_name', lambda n: eval(code, ns, {params[0]: n, **{q: 0 for q in params[1:]}}),
+                     lambda n: n // 2 - 1, [(n,) for n in range(4, 82, 2)])
+        return f'def sphericalAccessor {" ".join(f"({q}_ : Int)" for q in params)} : Int :=\n  {term}\n'
+    g.item('spherical_accessor', 'prysm/polynomials/zernike.py:nm_to_name', find_sph, build_sph,
+           f'def sphericalAccessor (n_ m_ : Int) : Int := {M}.sphericalAccessor n_')
+
+    def build_namekey():
+        fn = get_def(zk, 'nm_to_name')
+        helpers = _module_helpers(zk)
+        coded = names_as_codes(fn, helpers)
+        HELPERS.clear()
+        HELPERS.update({'_name_accessor': helpers['_name_accessor']} if '_name_accessor' in helpers else {})
+        try:
+            f2 = dict(funcs)
+            f2['_name_accessor'] = ('nameAccessor', ['int', 'int'], 'int?')
+            text = compile_fn(coded, 'nameKey', f2)
+            ns = _scratch_ns(mo)
+            if '_name_accessor' in helpers:
+                _exec_defs([helpers['_name_accessor']], ns)
+            _exec_defs([coded], ns)
+            _same_scheme('nm_to_name', ns[coded.name], _model_name_key, _grid())
+            return text
+        finally:
+            HELPERS.clear()
+    g.item('nm_to_name', 'prysm/polynomials/zernike.py:nm_to_name, _name_helper',
+           lambda: ast.Module(body=[get_def(zk, 'nm_to_name'), get_def(zk, '_name_helper')], type_ignores=[]), build_namekey,
+           f'def nameKey (n_ m_ : Int) : Option (Int × Int × Int × Int) := some ({M}.nameKey n_ m_)')
+
+    def find_loop():
+        fn = get_def(zk, 'zernikes_to_magnitude_angle_nmkey')
+        loops = [st for st in fn.body if isinstance(st, ast.For) and isinstance(st.target, ast.Tuple) and len(st.target.elts) == 3]
+        if len(loops) != 1:
+            raise Untranslatable('zernikes_to_magnitude_angle_nmkey: the loop `for n, m, coef in coefs` was not found')
+        return loops[0]
+
+    def build_key():
+        lp = find_loop()
+        if not all(isinstance(x, ast.Name) for x in lp.target.elts):
+            raise Untranslatable('loop target')
+        nn, mm, cc = [x.id for x in lp.target.elts]
+        te = TE({nn: ('n_', 'int'), mm: ('m_', 'int')}, funcs)
+        tuples = {}
+        key = None
+        for st in lp.body:
+            if isinstance(st, ast.Assign) and len(st.targets) == 1 and isinstance(st.targets[0], ast.Name):
+                if isinstance(st.value, ast.Tuple):
+                    tuples[st.targets[0].id] = [te.as_int(x) for x in st.value.elts]
+                else:
+                    term, ty = te.expr(st.value)
+                    te.env = {**te.env, st.targets[0].id: (f'({term})', ty)}
+                continue
+            if isinstance(st, ast.Expr) and isinstance(st.value, ast.Call) and isinstance(st.value.func, ast.Attribute) \
+                    and st.value.func.attr == 'append' and isinstance(st.value.func.value, ast.Subscript) \
+                    and len(st.value.args) == 1 and isinstance(st.value.args[0], ast.Name) and st.value.args[0].id == cc \
+                    and key is None:
+                k = st.value.func.value.slice
+                if isinstance(k, ast.Name) and k.id in tuples:
+                    key = tuples[k.id]
+                elif isinstance(k, ast.Tuple):
+                    key = [te.as_int(x) for x in k.elts]
+                else:
+                    raise Untranslatable('key of the grouping dict')
+                continue
+            raise Untranslatable(f'statement in the grouping loop: {ast.unparse(st)[:60]}')
+        if key is None or len(key) != 2 or te.binds:
+            raise Untranslatable('the grouping key is not a pair of integers')
+        return f'def magangKey (n_ m_ : Int) : Int × Int :=\n  ({key[0]}, {key[1]})\n'
+    g.item('magang_key', 'prysm/polynomials/zernike.py:zernikes_to_magnitude_angle_nmkey', find_loop, build_key,
+           f'def magangKey (n_ m_ : Int) : Int × Int := {M}.magangKey n_ m_')
+
+    # the rule by which zernikes_to_magnitude_angle turns a name into its dict key (whole name, or name without the last word)
+    def find_strip():
+        fn = get_def(zk, 'zernikes_to_magnitude_angle')
+        loops = [st for st in fn.body if isinstance(st, ast.For)]
+        if len(loops) != 1:
+            raise Untranslatable('zernikes_to_magnitude_angle: one loop over the (n, |m|) classes expected')
+        return loops[0]
+
+    def build_strip():
+        lp = find_strip()
+        body = [st for st in lp.body]
+        src = [ast.unparse(st) for st in body]
+        ifs = [st for st in body if isinstance(st, ast.If)]
+        if len(ifs) != 1 or len(body) != 4:
+            raise Untranslatable('shape of the key loop')
+        if src[0] != 'name = nm_to_name(*k)' or src[1] not in ("split = name.split(' ')",) or not src[3].startswith('d2[k2] = '):
+            raise Untranslatable(f'shape of the key loop: {src[0]} / {src[1]} / {src[3]}')
+        iff = ifs[0]
+        if [ast.unparse(x) for x in iff.body] != ['k2 = name'] or [ast.unparse(x) for x in iff.orelse] != ["k2 = ' '.join(split[:-1])"]:
+            raise Untranslatable('branches of the key rule')
+
+        def cond(e):
+            if isinstance(e, ast.BoolOp):
+                op = ' && ' if isinstance(e.op, ast.And) else ' || '
+                return '(' + op.join(cond(v) for v in e.values) + ')'
+            if isinstance(e, ast.UnaryOp) and isinstance(e.op, ast.Not):
+                return f'(!{cond(e.operand)})'
+            if isinstance(e, ast.Compare) and len(e.ops) == 1:
+                l, o, r = e.left, e.ops[0], e.comparators[0]
+                if ast.unparse(l) == 'len(split)' and isinstance(r, ast.Constant) and type(r.value) is int:
+                    sym = {ast.Lt: '<', ast.LtE: '≤', ast.Gt: '>', ast.GtE: '≥', ast.Eq: '=', ast.NotEq: '≠'}.get(type(o))
+                    if sym:
+                        return f'decide (words_ {sym} {_ilit(r.value)})'
+                if isinstance(l, ast.Constant) and l.value == 'Tilt' and ast.unparse(r) == 'name':
+                    if isinstance(o, ast.In):
+                        return 'tilt_'
+                    if isinstance(o, ast.NotIn):
+                        return '(!tilt_)'
+            raise Untranslatable(f'condition {ast.unparse(e)}')
+        text = f'def keepsWholeName (words_ : Int) (tilt_ : Bool) : Bool :=\n  {cond(iff.test)}\n'
+        code = compile(ast.Expression(body=iff.test), '<gen_c11 scope guard>', 'eval')
+        for kind, words in enumerate((1, 2, 1, 2, 3)):
+            got = bool(eval(code, {'len': len}, {'split': ['w'] * words, 'name': 'Tilt X' if kind == 1 else 'w w'}))
+            if got != (kind in (0, 2, 3)):
+                raise Untranslatable('zernikes_to_magnitude_angle builds its keys by another rule than the hand model; the key strings are '
+                                     'not part of the property: tie only, judged by execution (no class may be lost)')
+        return text
+    g.item('magang_name_rule', 'prysm/polynomials/zernike.py:zernikes_to_magnitude_angle', find_strip, build_strip,
+           'def keepsWholeName (words_ : Int) (tilt_ : Bool) : Bool := decide (words_ < 3) && !tilt_')
+
+    def table(pyname, lean):
+        def find():
+            hits = [st for st in zk.body if isinstance(st, ast.Assign) and len(st.targets) == 1
+                    and isinstance(st.targets[0], ast.Name) and st.targets[0].id == pyname]
+            if len(hits) != 1 or not isinstance(hits[0].value, ast.Dict):
+                raise Untranslatable(f'{pyname} is not one module-level dict literal')
+            for x in ast.walk(zk):
+                if x is not hits[0] and isinstance(x, (ast.Subscript, ast.Attribute, ast.Name)) and isinstance(x.ctx, (ast.Store, ast.Del)):
+                    r = x
+                    while isinstance(r, (ast.Subscript, ast.Attribute)):
+                        r = r.value
+                    if isinstance(r, ast.Name) and r.id == pyname and not (x is hits[0].targets[0]):
+                        raise Untranslatable(f'{pyname} is modified after its definition')
+            return hits[0]
+
+        def build():
+            d = find().value
+            rows = []
+            for k, v in zip(d.keys, d.values):
+                if not (isinstance(k, ast.Constant) and type(k.value) is int and isinstance(v, ast.Constant) and isinstance(v.value, str)):
+                    raise Untranslatable(f'{pyname}: entry {ast.unparse(k) if k else "**"}')
+                if any(ord(c) < 32 or c in '"\\' for c in v.value):
+                    raise Untranslatable(f'{pyname}: string needs escaping')
+                if ' ' in v.value or not v.value:
+                    raise Untranslatable(f'{pyname}: the word {v.value!r} is empty or contains a blank (spelling of the names is not part of the '
+                                         'property: tie only)')
+                rows.append(f'({_ilit(k.value)}, "{v.value}")')
+            return f'def {lean} : List (Int × String) :=\n  [' + ', '.join(rows) + ']\n'
+        return find, build
+    f1, b1 = table('_names', 'namesTable')
+    g.item('names_table', 'prysm/polynomials/zernike.py:_names', f1, b1, 'def namesTable : List (Int × String) := []')
+    f2, b2 = table('_names_m', 'namesMTable')
+    g.item('names_m_table', 'prysm/polynomials/zernike.py:_names_m', f2, b2, 'def namesMTable : List (Int × String) := []')
     # structural fact (evidence; not a theorem: correct memoisation would make it false without breaking the property —
     # when it is false the items above are `untranslatable` and the harness widens its order-independence probing)
     def stateless():
